@@ -15,7 +15,7 @@ ID = "C18"
 LEVEL = "exploration"
 TIERS = {
     "quick": {"shards": 128, "examples": 24, "det_shards": 2},
-    "thorough": {"shards": 1024, "examples": 60, "det_shards": 8},
+    "thorough": {"shards": 2048, "examples": 60, "det_shards": 8},
 }
 RULE = ("case = (world, mode, variant): a tree or single file, an output placement (sibling, absolute, relative, nested in "
         "the input tree at any depth, a parent of the input, below not-yet-existing ancestors, pre-populated with unrelated "
